@@ -205,15 +205,18 @@ def check_term(term, res=None, second=False):
 
 
 def _singular_determinant(term, env):
-    'does the term contain a determinant whose operand is (numerically) singular at this valuation?'
+    'does the term contain a determinant whose operand is (numerically) singular at this valuation (inside a loop: at some iteration)?'
+    import itertools
     for sub in T.subterms(term):
         if sub[0] == 'determinant':
-            try:
-                M = numpy.moveaxis(T.ref(sub[2], env), list(sub[1]), [-2, -1])
-            except Exception:
-                continue
-            if M.size and (numpy.linalg.matrix_rank(M) < M.shape[-1]).any():
-                return True
+            loops = sorted({t[1] for t in T.subterms(sub[2]) if t[0] == 'loopidx' and t[1][0] in T.freevars(sub[2])})
+            for binding in itertools.product(*[range(n) for name, n in loops]):
+                try:
+                    M = numpy.moveaxis(T.ref(sub[2], dict(env, **{'@' + name: i for (name, n), i in zip(loops, binding)})), list(sub[1]), [-2, -1])
+                except Exception:
+                    continue
+                if M.size and (numpy.linalg.matrix_rank(M) < M.shape[-1]).any():
+                    return True
     return False
 
 
